@@ -19,12 +19,12 @@ META = {
         "graph invariants read the private pointer lists of CircuitGraphBranch (hook at the mutator, not an API observation)",
     ],
     "floors": {
-        "quick": {"listings_checked": 4000, "graph_invariant": 30000, "add_to_graph_post": 30000, "causality_pairs": 20000, "blocks_contiguity": 1500, "chain_length": 1000},
+        "quick": {"late_add_listings": 2500, "late_add_through_nested_handle": 500, "listings_checked": 4000, "graph_invariant": 30000, "add_to_graph_post": 30000, "causality_pairs": 20000, "blocks_contiguity": 1500, "chain_length": 1000},
         "thorough": {"listings_checked": 40000, "graph_invariant": 300000, "causality_pairs": 200000, "blocks_contiguity": 15000},
     },
 }
 
-CLASSES = ["implicit", "explicit", "zero", "nested", "nested_explicit", "allkinds", "measure"]
+CLASSES = ["implicit", "explicit", "zero", "nested", "nested_explicit", "allkinds", "measure", "wide", "deepnest"]
 
 
 def plan(tier: str, seed: int) -> List[Dict[str, Any]]:
@@ -148,6 +148,31 @@ def check_program(prog: Dict[str, Any], acc: Acc, flags=None):
             if "get_last_entry" in v["what"] or "add " in v["what"]:
                 acc.finding("api/add-return", v["what"], case, v)
         check_listing(built, acc, case, "built")
+        # ---- the listing follows later additions (made after it was read): through the circuit, then through a nested handle,
+        #      with a listing after each (an addition through a handle goes past the DeclarativeCircuit front end)
+        circuit0 = built.top.circuit
+        content = sorted(snap.op_sig(o) for o in circuit0.operations)
+        stages = [("circuit", None)]
+        for h, child in zip(built.top.handles, built.top.children):
+            if child is not None:
+                stages.append(("nested-handle", h))
+                break
+        for how, handle in stages:
+            op = bp.make_op({"k": "Rx180" if handle is None else "Ry90", "q": [0 if handle is None else 1]}, ctx, [built.top])
+            if handle is None:
+                circuit0.add(op)
+            else:
+                handle.add(op)
+                acc.count("late_add_through_nested_handle")
+            listed = circuit0.operations
+            acc.count("late_add_listings")
+            content = sorted(content + [snap.op_sig(op)])
+            after = sorted(snap.op_sig(o) for o in listed)
+            if after != content or not any(o is op for o in listed):
+                only_a, only_b = snap.multiset_diff(after, content)
+                acc.finding("listing/late-add-missing", f"an operation added ({how}) after the listing was read is not (exactly once) in the next listing", case,
+                            {"only_listing": only_a[:4], "only_expected": only_b[:4]})
+                break
         # and once more after unrolling a fresh instance (listing of the unrolled circuit)
         built2 = bp.build(prog, bp.Ctx(prog.get("settings")))
         top_reps = M.reps_of(M.MNode(is_block=True, reps=prog["circuit"].get("reps", 1)), ctx.S)
